@@ -632,7 +632,7 @@ impl TransactionalMemory {
         if needs_recovery && read_only {
             return Err(DatabaseError::RepairAborted);
         }
-        let (header, _) = unrepaired.finalize(file_len)?;
+        let (header, _, _) = unrepaired.finalize(file_len)?;
         if needs_recovery {
             storage
                 .write(0, DB_HEADER_SIZE, true)?
@@ -745,8 +745,15 @@ impl TransactionalMemory {
 
         let header_bytes = self.storage.read_direct(0, DB_HEADER_SIZE)?;
         let unrepaired = UnrepairedDatabaseHeader::from_bytes(&header_bytes, self.page_size)?;
-        let (header, was_clean) = unrepaired.finalize(self.storage.raw_file_len()?)?;
-        if !was_clean {
+        let file_len = self.storage.raw_file_len()?;
+        // The layout stored in the header lags behind the in-memory one from the moment a
+        // transaction grows the file until a commit writes it, and an aborted transaction never
+        // does. A stored layout that the reload merely brings up to date is therefore not damage,
+        // as long as the file still has the length this process left it with.
+        let layout_was_current = file_len == self.state.lock().unwrap().header.layout().len();
+        let (header, kept_primary, stored_layout_matched) = unrepaired.finalize(file_len)?;
+        let was_clean = kept_primary && (stored_layout_matched || layout_was_current);
+        if !(kept_primary && stored_layout_matched) {
             self.storage
                 .write(0, DB_HEADER_SIZE, true)?
                 .mem_mut()
